@@ -89,7 +89,9 @@ struct Flavour
     virtual void reinit(bool other) { (void)other; }
     virtual void *get(unsigned tag) = 0; // allocate (and construct with `tag`)
     virtual void put(void *p) = 0;       // (destroy and) free
-    virtual struct pool_head *head() = 0; // the free list (anchors: pool.h:7-10)
+    // the free list (anchors: pool.h:7-10). nullptr when it cannot be reached through public names (igris::pool keeps
+    // it private; with -DC10_PUBLIC_ONLY the harness does not name private members and probes instead, see probe())
+    virtual struct pool_head *head() = 0;
     // flavour-specific observers after every call; returns "" or what disagrees
     virtual string observers(const vector<int> &live_tag) = 0;
     virtual string counts(size_t nlive) = 0; // the counters only (large capacities: the rest is quadratic)
@@ -157,7 +159,11 @@ struct XFlavour : Flavour
     }
     void *get(unsigned) override { return p.get(); }
     void put(void *q) override { p.put(q); }
-    struct pool_head *head() override { return &p.head; }
+#ifndef C10_PUBLIC_ONLY
+    struct pool_head *head() override { return &p.head; } // private member: needs -fno-access-control
+#else
+    struct pool_head *head() override { return nullptr; }
+#endif
     string counts(size_t nl) override
     {
         if (p.size() != cap || p.element_size() != esz)
@@ -251,6 +257,52 @@ template <class T, size_t N> struct SFlavour : Flavour
     }
 };
 
+// Free-list order through the public API only ("allocation probing"): take blocks until the pool answers null, then
+// give them back in reverse order (which restores a LIFO free list exactly). Checks what the walk checks, from the
+// caller's side: exactly capacity - live successes, every one a free cell of the zone on the grid, no cell twice.
+static bool probe(Flavour *f, const vector<int> &live_tag, vector<int> &order, string &why)
+{
+    order.clear();
+    size_t nlive = 0;
+    for (int t : live_tag)
+        nlive += t >= 0;
+    size_t expect = f->cap - nlive;
+    vector<char *> got;
+    vector<char> taken(f->cap, 0);
+    bool ok = true;
+    for (size_t i = 0; i <= expect && ok; i++)
+    {
+        char *q = (char *)f->get(0);
+        if (!q)
+            break;
+        if (q < f->zone || q + f->esz > f->zone + f->esz * f->cap || (q - f->zone) % f->esz)
+        {
+            why = mc::fmt("free-list entry #%zu is not a cell of the zone (probe: allocation #%zu returned zone%+ld)", i, i + 1, (long)(q - f->zone));
+            ok = false;
+            break;
+        }
+        int cell = (int)((q - f->zone) / f->esz);
+        if (live_tag[cell] >= 0 || taken[cell])
+        {
+            why = mc::fmt("free list is longer than the capacity (cycle) (probe: allocation #%zu returned cell %d which is %s)", i + 1, cell,
+                          taken[cell] ? "already taken" : "live");
+            ok = false;
+            break;
+        }
+        taken[cell] = 1;
+        got.push_back(q);
+        order.push_back(cell);
+    }
+    if (ok && got.size() != expect)
+    {
+        why = mc::fmt("probe: %zu successful allocations, capacity %zu - live %zu = %zu", got.size(), f->cap, nlive, expect);
+        ok = false;
+    }
+    for (size_t i = got.size(); i-- > 0;)
+        f->put(got[i]);
+    return ok;
+}
+
 struct Conf
 {
     string name;
@@ -324,6 +376,8 @@ struct PoolModel : mc::Model
     bool walk(vector<int> &order, string &why)
     {
         order.clear();
+        if (!f->head())
+            return probe(f.get(), live_tag, order, why);
         struct slist_head *hd = &f->head()->free_blocks;
         for (struct slist_head *it = hd->next; it != hd; it = it->next)
         {
@@ -608,6 +662,14 @@ struct Large
     // bounded walk of the free list: exactly cap - nlive entries, all of them cells of the zone
     string count_walk()
     {
+        if (!f->head())
+        {
+            vector<int> ord;
+            string why;
+            if (!probe(f, live_tag, ord, why))
+                return (why.compare(0, 6, "probe:") == 0 ? "count: " : "free_list_corrupt: ") + why;
+            return "";
+        }
         struct slist_head *hd = &f->head()->free_blocks;
         size_t n = 0;
         for (struct slist_head *it = hd->next; it != hd; it = it->next)
